@@ -87,6 +87,7 @@ func (g *fnGen) contractFor(cc *ssa.CallCommon) (ct *FuncContract, calleeName st
 		return nil, calleeName, calleePkg, sig
 	}
 	if f := cc.StaticCallee(); f != nil {
+		instSig := f.Signature // instantiated signature (result sorts must not be type parameters)
 		if f.Origin() != nil {
 			f = f.Origin()
 		}
@@ -101,9 +102,9 @@ func (g *fnGen) contractFor(cc *ssa.CallCommon) (ct *FuncContract, calleeName st
 			if c.Extern {
 				g.usedContracts["extern "+calleeName] = true
 			}
-			return c, calleeName, calleePkg, f.Signature
+			return c, calleeName, calleePkg, instSig
 		}
-		return nil, calleeName, calleePkg, f.Signature
+		return nil, calleeName, calleePkg, instSig
 	}
 	return nil, "dynamic call", nil, cc.Signature()
 }
@@ -299,6 +300,9 @@ func (g *fnGen) doCallWithArgs(st *state, cc *ssa.CallCommon, instr ssa.Instruct
 				continue
 			}
 			g.assume(st, t)
+		}
+		if strings.HasPrefix(calleeName, "(*sync.") && (strings.HasSuffix(calleeName, ").Lock") || strings.HasSuffix(calleeName, ").RLock")) {
+			g.lockAcquired(st, cc)
 		}
 		if ct.Extern || ct.Iface {
 			g.assumptions[fmt.Sprintf("assumed contract: %s", calleeName)] = true
@@ -798,4 +802,50 @@ func mentionsGhostVar(e SExpr, ct *FuncContract) bool {
 	}
 	walk(e)
 	return found
+}
+
+// lockAcquired: state guarded by a mutex is stable only while the mutex is held.
+// At every acquisition the guarded fields (and the contents of guarded maps)
+// become whatever other goroutines left there: they are havocked, and the
+// resulting state is remembered so that contracts can speak about the state
+// "at the lock" (atlock(e)) — the pre-state of the critical section.
+func (g *fnGen) lockAcquired(st *state, cc *ssa.CallCommon) {
+	if len(cc.Args) == 0 {
+		return
+	}
+	fa, ok := cc.Args[0].(*ssa.FieldAddr)
+	if !ok {
+		return
+	}
+	structT := deref(fa.X.Type())
+	n, ok := structT.(*types.Named)
+	if !ok || n.Obj().Pkg() == nil {
+		return
+	}
+	stt := structT.Underlying().(*types.Struct)
+	muName := stt.Field(fa.Field).Name()
+	owner := g.val(st, fa.X)
+	for _, gd := range g.P.cs.Guards {
+		if gd.PkgPath != n.Obj().Pkg().Path() || gd.Struct != n.Obj().Name() || gd.Mutex != muName {
+			continue
+		}
+		for _, fname := range gd.Fields {
+			for i := 0; i < stt.NumFields(); i++ {
+				f := stt.Field(i)
+				if f.Name() != fname {
+					continue
+				}
+				if mt, isMap := f.Type().Underlying().(*types.Map); isMap {
+					m := g.readField(st, structT, f, owner)
+					g.mapArrays(mt, func(name, srt string) {
+						g.havocLoc(st, assignLoc{name, m, srt})
+					})
+				} else if _, isStruct := f.Type().Underlying().(*types.Struct); !isStruct {
+					g.havocLoc(st, assignLoc{g.fieldArrayName(structT, f), owner, "(Array Int " + g.R.sortOf(f.Type()) + ")"})
+				}
+			}
+		}
+	}
+	st.lockSnap = st.clone()
+	g.assumptions["state guarded by a mutex is havocked at every acquisition of that mutex (other goroutines may have changed it); atlock(e) names its value at the acquisition"] = true
 }
